@@ -18,7 +18,7 @@
 //!      single-op references differ on that input.
 mod userops;
 use crate::common::{catch, stable_msg, Report};
-use userops::{VFold, VNamedMain, VNest, VPick, VTwoAux};
+use userops::{VAffine, VFold, VNamedMain, VNest, VPick, VTwoAux};
 use crate::exec::{first_line, seed_bytes};
 use crate::vals::{arr_value, build_value, num_elems, show, st_signed};
 use ciphercore_base::custom_ops::{run_instantiation_pass, CustomOperation, Not, Or};
@@ -333,6 +333,14 @@ fn alphabet() -> Vec<Member> {
         }
         for depth in [0u64, 1, 3] {
             addu("VNest", format!("depth={}", depth), CustomOperation::new(VNest { depth }), un_bits.clone());
+        }
+        for (scale, shift) in [(3u64, 1u64), (3, 5), (2, 1)] {
+            addu(
+                "VAffine",
+                format!("scale={},shift={}", scale, shift),
+                CustomOperation::new(VAffine { scale, shift }),
+                vec![vec![i3.clone()], vec![i0.clone()]],
+            );
         }
         for late in [false, true] {
             let sigs: Vec<Vec<Type>> = un_bits.iter().map(|s| vec![s[0].clone(), s[0].clone()]).collect();
